@@ -274,9 +274,11 @@ def optimal(spec, zero=frozenset(), want_steps=False):
     return best, Q
 
 
-def all_proper(spec):
-    """Every deterministic policy reaches an absorbing state with probability 1 from every state."""
-    A = spec.absorbing()
+def all_proper(spec, explicit_only=False):
+    """Every deterministic policy reaches an absorbing state with probability 1 from every state.
+    explicit_only: only states the functional `is_absorbing` declares count (what planners that
+    work on the functional interface can see)."""
+    A = spec.abs_explicit if explicit_only else spec.absorbing()
     n = spec.n
     for pi in det_policies(spec):
         P, r, _ = chain_of(spec, pi)
